@@ -36,7 +36,6 @@ Definition stmt_dropped (s : stmt) : list string :=
   end.
 Definition dropped_names (l : list stmt) : list string := flat_map stmt_dropped l.
 
-Definition is_check (k : table_constraint) : bool := match k with CCheck _ _ => true | _ => false end.
 
 Definition created_types (l : list stmt) : list string :=
   flat_map (fun s => match s with SCreateType n _ => [n] | _ => [] end) l.
